@@ -286,8 +286,8 @@ CHECKS["C20"] = {
              "distinct = distinct plan texts (the schedule seed is part of the text)"),
     "budget_s": {"quick": 80, "thorough": 1500},
     "batches": [
-        {"family": "conc", "mode": "parked", "kind": "conc", "cfgs": {"quick": ["A"], "thorough": ["A", "B", "H"]},
-         "runs": {"quick": 2400, "thorough": 60000}},
+        {"family": "conc", "mode": "parked", "kind": "conc", "cfgs": {"quick": ["A", "B"], "thorough": ["A", "B", "H", "G"]},
+         "runs": {"quick": 1400, "thorough": 60000}},
     ],
     "probes": ["fault.preemptions_fired", "conc.switches", "op.shr"],
     "components": CONC_COMPONENTS,
@@ -323,3 +323,8 @@ CHECKS["C06"]["batches"].append(
 CHECKS["C03"]["batches"].append(
     {"family": "xfer", "mode": "token", "cfgs": {"quick": ["A", "B"], "thorough": ALL_CFGS},
      "runs": {"quick": 6000, "thorough": 100000}})
+
+CHECKS["C09"]["batches"].append(
+    {"family": "xfer", "mode": "mpbadkey", "cfgs": {"quick": ["A", "B"], "thorough": ALL_CFGS},
+     "runs": {"quick": 300, "thorough": 6000}})
+CHECKS["C09"]["rule"] += "; plus every one of the 256 header bytes in map-key position (only string headers may be accepted) and 0xC1 at value positions"
